@@ -235,11 +235,14 @@ func (obj Object) CompletionAtPos(ctx context.Context, pos hcl.Pos) []lang.Candi
 
 func objectItemPrefixBasedEditRange(remainingRange hcl.Range, fileBytes []byte, rawPrefixBytes []byte) hcl.Range {
 	remainingBytes := remainingRange.SliceBytes(fileBytes)
-	roughEndByteOffset := bytes.IndexFunc(remainingBytes, func(r rune) bool {
+	roughRemainingBytes := remainingBytes
+	if roughEndByteOffset := bytes.IndexFunc(remainingBytes, func(r rune) bool {
 		return r == '\n' || r == '}'
-	})
+	}); roughEndByteOffset >= 0 {
+		roughRemainingBytes = remainingBytes[:roughEndByteOffset]
+	}
 	// avoid editing over whitespace
-	trimmedRightBytes := bytes.TrimRightFunc(remainingBytes[:roughEndByteOffset], func(r rune) bool {
+	trimmedRightBytes := bytes.TrimRightFunc(roughRemainingBytes, func(r rune) bool {
 		return unicode.IsSpace(r)
 	})
 	trimmedOffset := len(trimmedRightBytes)
